@@ -268,3 +268,157 @@ def core_case(seed):
                                                   ([Cmp('==', x, Str('a'))] if rnd.random() < 0.5 else []))))
   prog = Program(rules, ext=EXT)
   return Case(prog, 'core', macros=macros, K=2)
+
+
+# ---------------------------------------------------------------- family: agg (C02)
+
+AGG_SIMPLE = ['Sum', 'Min', 'Max', 'Count', 'List', 'Set']
+
+
+def agg_case(seed):
+  rnd = random.Random(seed ^ 0x5a5a)
+  kind = rnd.choice(['pred', 'pred', 'multibody', 'distinct', 'expr', 'expr', 'two_combines',
+                     'nested', 'neg', 'neg_conj', 'impl', 'argbest', 'nullable', 'expr_head',
+                     'consumer'])
+  x, y, z, u, v, w = [Var(n) for n in 'xyzuvw']
+  rules = []
+  nullable = set()
+  K = 2
+  notes = kind
+
+  def src_body(nkeys):
+    """a body binding key variables and an aggregated variable y (1-2 atoms)."""
+    c = rnd.randrange(6)
+    if c == 0:
+      return [A('E', x, y)], [x][:nkeys] if nkeys <= 1 else None
+    if c == 1:
+      return [A('W', x, z, y)], [x, z][:nkeys]
+    if c == 2:
+      return [A('E', x, z), A('F', z, y)], [x, z][:nkeys]
+    if c == 3:
+      return [A('W', x, z, y), A('G', x)], [x, z][:nkeys]
+    if c == 4:
+      return [A('E', x, y), Cmp('>', y, Num(0))], [x][:nkeys] if nkeys <= 1 else None
+    return [Disj([A('E', x, y), A('F', y, x)])], [x][:nkeys] if nkeys <= 1 else None
+
+  def body_keys(nkeys):
+    while True:
+      items, keys = src_body(nkeys)
+      if keys is not None:
+        return items, keys
+
+  def agg_value_expr():
+    return rnd.choice([y, y, Bin('+', y, Num(1)), Bin('*', Num(2), y), Bin('-', y, x)])
+
+  if kind in ('pred', 'multibody', 'nullable'):
+    nkeys = rnd.randint(0, 2)
+    items, keys = body_keys(nkeys)
+    nagg = rnd.randint(1, 2)
+    ops = [rnd.choice(AGG_SIMPLE) for _ in range(nagg)]
+    value_style = nagg == 1 and rnd.random() < 0.5
+    es = [agg_value_expr() if kind != 'nullable' else y for _ in range(nagg)]
+    if kind == 'nullable':
+      items, keys = [A('W', x, z, y)], [x, z][:nkeys]
+      nullable = {('W', 'col2')}
+      ops = [rnd.choice(['Sum', 'Min', 'Max', 'Count']) for _ in range(nagg)]
+      K = 3
+
+    def mk(items):
+      if value_style:
+        return Rule('P', keys, [], Agg(ops[0], es[0]), False, Conj(items))
+      return Rule('P', keys, [('a%d' % i, Agg(ops[i], es[i])) for i in range(nagg)], None, True,
+                  Conj(items))
+    rules.append(mk(items))
+    if kind == 'multibody':
+      # second body over other tables with the same variables
+      alt = rnd.choice([[A('F', x, y)], [A('E', y, x)], [A('F', x, z), A('E', z, y)]])
+      if len(keys) == 2:
+        alt = [A('W', x, z, y)] if rnd.random() < 0.5 else [A('E', x, z), A('E', z, y)]
+      rules.append(mk(alt))
+    if len(items) == 1 and kind != 'multibody':
+      K = 3
+  elif kind == 'distinct':
+    items, keys = body_keys(rnd.randint(1, 2))
+    rules.append(Rule('P', keys + ([Bin('+', keys[0], Num(1))] if rnd.random() < 0.3 else []),
+                      [], None, True, Conj(items)))
+    if rnd.random() < 0.5:
+      rules.append(Rule('P', list(rules[0].args[:len(keys)]) + ([Num(7)] if len(rules[0].args) > len(keys) else []),
+                        [], None, True, Conj([A('F', *keys)] if len(keys) == 2 else [A('G', keys[0])])))
+    K = 3 if len(items) == 1 else 2
+  elif kind in ('expr', 'expr_head'):
+    op = rnd.choice(AGG_SIMPLE)
+    style = rnd.choice(['brace', 'combine', 'concise'])
+    outer = rnd.choice([[A('G', x)], [A('E', x, z)], [A('G', x), A('G', z)]])
+    two = len(outer) > 1 or outer[0].pred == 'E'
+    inner = rnd.choice([[A('E', x, y)], [A('F', y, x)], [A('E', x, u), A('F', u, y)],
+                        [A('E', x, y), Cmp('<', y, Num(3))]])
+    if two and rnd.random() < 0.6:
+      inner = rnd.choice([[A('W', x, z, y)], [A('E', x, y), A('F', y, z)],
+                          [A('E', x, y), Cmp('!=', y, z)]])
+    e = rnd.choice([y, Bin('+', y, Num(1)), Bin('+', y, x)])
+    agg = AggE(op, e, Conj(inner), style)
+    if kind == 'expr_head' and style != 'concise':
+      rules.append(Rule('P', [x, agg], body=Conj(outer)))
+    else:
+      use = rnd.choice(['out', 'cmp', 'isnull'])
+      items = list(outer) + [Cmp('==', v, agg)]
+      if op in ('List', 'Set'):
+        use = rnd.choice(['out', 'size'])
+      if use == 'out':
+        rules.append(Rule('P', [x, v], body=Conj(items)))
+      elif use == 'size':
+        rules.append(Rule('P', [x, Size(v)], body=Conj(items)))
+      elif use == 'cmp':
+        rules.append(Rule('P', [x], body=Conj(items + [Cmp('>', v, Num(1))])))
+      else:
+        rules.append(Rule('P', [x], body=Conj(items + [IsNull(v)])))
+  elif kind == 'two_combines':
+    # the same local variable name in two combines of one rule
+    op1, op2 = rnd.choice(['Sum', 'Min', 'Max', 'Count']), rnd.choice(['Sum', 'Min', 'Max', 'Count'])
+    s1, s2 = rnd.choice(['brace', 'combine', 'concise']), rnd.choice(['brace', 'combine', 'concise'])
+    a1 = AggE(op1, y, Conj([A('E', x, y)]), s1)
+    a2 = AggE(op2, y, Conj([A('F', x, y)] if rnd.random() < 0.5 else [A('F', y, x)]), s2)
+    rules.append(Rule('P', [x, u, v], body=Conj([A('G', x), Cmp('==', u, a1), Cmp('==', v, a2)])))
+  elif kind == 'nested':
+    opi, opo = rnd.choice(['Sum', 'Max', 'Count']), rnd.choice(['Sum', 'Min', 'Max'])
+    inner = AggE(opi, z, Conj([A('F', y, z)]), rnd.choice(['brace', 'combine']))
+    same_name = rnd.random() < 0.5
+    if same_name:
+      inner = AggE(opi, y, Conj([A('F', u, y)]), 'brace')
+      outer = AggE(opo, w, Conj([A('E', x, u), Cmp('==', w, inner)]), 'brace')
+    else:
+      outer = AggE(opo, w, Conj([A('E', x, y), Cmp('==', w, inner)]), 'brace')
+    rules.append(Rule('P', [x, v], body=Conj([A('G', x), Cmp('==', v, outer)])))
+  elif kind == 'neg':
+    pos = rnd.choice([[A('G', x)], [A('E', x, y)]])
+    negd = rnd.choice([A('E', x, x), A('F', x, z), A('E', z, x)])
+    if len(pos[0].args) == 2 and rnd.random() < 0.5:
+      negd = A('F', y, x)
+    rules.append(Rule('P', [a for a in pos[0].args], body=Conj(pos + [Neg(negd)])))
+    K = 3
+  elif kind == 'neg_conj':
+    pos = [A('G', x)]
+    negd = Conj(rnd.choice([[A('E', x, z), A('F', z, u)], [A('E', x, z), Cmp('>', z, Num(1))],
+                            [A('E', x, z), Neg(A('G', z))]]))
+    rules.append(Rule('P', [x], body=Conj(pos + [Neg(negd)])))
+  elif kind == 'impl':
+    rules.append(Rule('P', [x], body=Conj([A('G', x), Impl(A('E', x, y), rnd.choice([A('F', y, x), A('G', y), Cmp('>', y, Num(0))]))])))
+  elif kind == 'argbest':
+    op = rnd.choice(['ArgMin', 'ArgMax'])
+    nkeys = rnd.randint(0, 1)
+    if rnd.random() < 0.5:
+      rules.append(Rule('P', [x][:nkeys], [], Agg(op, Arrow(z, y)), False, Conj([A('W', x, z, y)])))
+    else:
+      rules.append(Rule('P', [x][:nkeys], [('best', Agg(op, Arrow(z, y))), ('m', Agg('Max', y))], None, True,
+                        Conj([A('W', x, z, y)])))
+    K = 3
+  elif kind == 'consumer':
+    # aggregated predicate read by another rule (as table and as functional value)
+    op = rnd.choice(['Sum', 'Min', 'Max', 'Count'])
+    rules.append(Rule('P', [x], [], Agg(op, y), False, Conj([A('E', x, y)])))
+    if rnd.random() < 0.5:
+      rules.append(Rule('Q', [x, v], body=Conj([A('G', x), Cmp('==', v, Call('P', [x], []))])))
+    else:
+      rules.append(Rule('Q', [x, Bin('+', v, Num(1))], body=Conj([ValAtom('P', [x], [], v), A('F', x, z)])))
+  prog = Program(rules, ext=EXT)
+  return Case(prog, 'agg', K=K, nullable=nullable, notes=notes)
